@@ -41,8 +41,8 @@ META = {
     'rule': 'A case = (data set of 8 rows derived from one random base document + int/str/float arrays, operation '
             'kind, path with constant and parameter keys/indexes incl. negative and missing ones, operand). '
             'Fingerprint = operation kind + path shape (key classes, index signs, const/param) + operand type + '
-            'per-row value-class vector; non-trivial if at least one row has a reference and, for filters, the '
-            'reference result set is neither empty nor full or the value column is not all None.',
+            'per-row value-class vector; non-trivial if the reference answers of the rows are not all the same '
+            '(a filter selects a proper non-empty subset of the rows, a value query yields at least two values).',
     'assumptions': [
         'PostgreSQL cannot run here: its jsonb operators are not executed; only the text produced by the real '
         'PGSQLBuilder.eval_json_path (extracted from source, psycopg2 is not importable) is decoded with a parser of '
@@ -72,7 +72,7 @@ MISSING = type('Missing', (), {'__repr__': lambda s: 'MISSING'})()
 NOREF = type('NoRef', (), {'__repr__': lambda s: 'NOREF'})()
 
 KEYS_PLAIN = ['a', 'b', 'c', 'd', 'n', 'k']
-KEYS_HOSTILE = ['k 1', 'x.y', '', '1', '007', '-1', 'é', '中😀', '$', '$.a', "it's", 'br[0]', '[0]', '*', '#', '.',
+KEYS_HOSTILE = ['k 1', 'x.y', '', '0', '1', '1', '2', '007', '-1', 'é', '中😀', '$', '$.a', "it's", 'br[0]', '[0]', '*', '#', '.',
                 'q"', '"', 'a"b"c', 'back\\slash', '\\', 'nl\nx', 'tab\t', '\x01', '%s', ':p1', '?', 'null', 'NULL',
                 ' ', 'a b', "''", 'A' * 70]
 SCALARS = [None, None, True, False, 0, 1, 1, 2, -1, 7, 2 ** 31, 2 ** 53 + 1, -2 ** 63, 10 ** 20, 0.0, -0.0, 1.0, 1.5,
@@ -247,7 +247,9 @@ def expected(q, row, mode, rules, sqlev):
         out = [py] if py == strict else [py, strict]
         return out if q['op'] == '==' else [not x for x in out]
     if kind == 'contains':
-        if not isinstance(pv, (list, dict)): return NOREF
+        if not isinstance(pv, (list, dict)):
+            # Python would raise; under a deviation rule the path may be (wrongly) absent: Pony then answers "not in"
+            return NOREF if not rules else [False != q['neg']]
         key = q['key']
         py = key in pv
         if isinstance(pv, list) and not isinstance(key, str):
@@ -258,7 +260,7 @@ def expected(q, row, mode, rules, sqlev):
     if kind == 'len':
         if isinstance(pv, list): return [len(pv)]
         if isinstance(pv, (dict, str)): return [0] if R_LEN0 in rules else [len(pv)]
-        return NOREF
+        return NOREF if not rules else [0]      # absent (only reachable under a deviation rule): Pony answers 0
     if kind == 'truth':
         r = bool(pv)
         if R_FLOAT0 in rules and isinstance(pv, float) and pv == 0.0: r = True
@@ -283,10 +285,7 @@ def match(got, admissible):
     """Python equality against any admissible answer (True == 1 and 1 == 1.0 are type-only differences, accepted)."""
     for e in admissible:
         try:
-            if e == got and isinstance(e, bool) == isinstance(got, bool) or \
-                    (e == got and not isinstance(e, bool) and isinstance(got, bool)) or \
-                    (e == got and isinstance(e, bool) and not isinstance(got, bool)):
-                return True
+            if e == got: return True
         except Exception: pass
     return False
 
@@ -381,6 +380,12 @@ def gen_path(rng, ds, want=None, minlen=1):
         path.append(rng.choice((0, 1, -1, gen_key(rng))))
     elif r < 0.18 and path:                        # a sibling key / index that may not exist
         path[-1] = rng.choice((gen_key(rng), 0, 5, -1, -2, -6)) if rng.random() < 0.7 else path[-1]
+    # digit-only keys vs indexes: spell a digit key as an index or an index as a digit key (must select nothing)
+    if rng.random() < 0.15:
+        js = [j for j, k in enumerate(path) if isinstance(k, int) or (isinstance(k, str) and re.match(r'^-?\d+$', k))]
+        if js:
+            j = rng.choice(js)
+            path[j] = str(path[j]) if isinstance(path[j], int) else int(path[j])
     # negative spelling of list indexes
     cur = base
     for j, k in enumerate(path):
@@ -427,6 +432,12 @@ ARR_KINDS = ['arr_index', 'arr_index', 'arr_slice', 'arr_slice', 'arr_in', 'arr_
 
 
 def gen_query(rng, ds):
+    q = gen_query0(rng, ds)
+    q['form_src'] = 'gen' if rng.random() < 0.75 else 'str'
+    return q
+
+
+def gen_query0(rng, ds):
     if rng.random() < 0.3: return gen_arr_query(rng, ds)
     kind = rng.choice(JSON_KINDS)
     q = {'kind': kind}
@@ -579,9 +590,9 @@ def shape_fp(q):
         def o(x):
             if x is None: return None
             return (x[0], ('neg' if x[1] < 0 else 'pos') if isinstance(x[1], int) and x[0] != 'attr' else x[1] if x[0] == 'attr' else type(x[1]).__name__)
-        return [kind, q['attr'], o(q.get('index')), o(q.get('start')), o(q.get('stop')), q.get('op'), q.get('neg'),
+        return [kind, q.get('form_src'), q['attr'], o(q.get('index')), o(q.get('start')), o(q.get('stop')), q.get('op'), q.get('neg'),
                 q.get('form'), len(q.get('items', ())), o(q.get('item'))]
-    return [kind, [kclass(k) for k in q['path']], q.get('params'), q.get('op'), vclass(q.get('operand')) if 'operand' in q else None,
+    return [kind, q.get('form_src'), [kclass(k) for k in q['path']], q.get('params'), q.get('op'), vclass(q.get('operand')) if 'operand' in q else None,
             q.get('operand_param'), q.get('form'), q.get('neg'), vclass(q.get('key')) if 'key' in q else None, q.get('key_param'),
             [vclass(c) for c in q.get('consts', ())]]
 
@@ -631,14 +642,21 @@ class Env(object):
                     P(id=r['id'], data=json.loads(json.dumps(r['data'])), ia=list(r['ia']), sa=list(r['sa']),
                       fa=list(r['fa']), n=r['n'], m=r['m'])
 
-    def run_query(self, mode, src, loc):
+    def run_query(self, mode, src, loc, form='gen'):
+        """form 'gen': the query is a real generator expression (compiled Python, decompiled by Pony; numeric literals
+        incl. negative ones are constants); form 'str': query text with globals/locals (there `-1` is an external
+        expression, i.e. a parameter)."""
         m = self.modes[mode]
         orm = self.orm
         mark = m['rec'].mark()
-        g = {'P': m['P'], 'Json': orm.Json, 'len': len}
+        g = {'P': m['P'], 'Json': orm.Json, 'len': len, 'select': orm.select}
         try:
             with orm.db_session:
-                res = orm.select(src, g, dict(loc))[:]
+                if form == 'gen':
+                    g.update(loc)
+                    res = eval('select(%s)[:]' % src, g)
+                else:
+                    res = orm.select(src, g, dict(loc))[:]
                 res = [tuple(json.loads(json.dumps(x)) if isinstance(x, (list, dict)) else x for x in r)
                        if isinstance(r, tuple) else r for r in res]
             err = None
@@ -661,8 +679,10 @@ def judge_query(ctx, env, sqlev, ds, q, counts_only=False):
     src, loc, is_filter = render(q)
     kind = q['kind']
     verdicts = {}
+    form = q.get('form_src', 'gen')
+    ctx.count('queries.form.' + form)
     for mode in ('json1', 'py'):
-        res, err, sqls = env.run_query(mode, src, loc)
+        res, err, sqls = env.run_query(mode, src, loc, form)
         for s in sqls:
             for f in FUNC_RE.findall(s):
                 ctx.count('sqlfunc.%s.%s' % (mode, f))
@@ -672,6 +692,10 @@ def judge_query(ctx, env, sqlev, ds, q, counts_only=False):
                 ctx.count('json1_mode_used_fallback_function')
         if err is not None:
             name = type(err).__name__
+            msg = str(err)
+            if name == 'OperationalError':
+                name += ':' + ('json_path_error' if 'JSON path error' in msg else 'udf_raised' if 'user-defined function' in msg
+                               else re.sub(r'[^A-Za-z ]', '', msg)[:30].strip().replace(' ', '_'))
             ctx.count('outcome.pony_raised')
             ctx.count('raised.%s.%s.%s' % (mode, kind, name))
             verdicts[mode] = ('raised', name, str(err)[:120])
@@ -695,10 +719,12 @@ def judge_query(ctx, env, sqlev, ds, q, counts_only=False):
             rows_out.append({'row': None, 'problem': 'result rows do not correspond to table rows: %r' % sorted(map(repr, extra))[:5],
                              'verdict': 'violation'})
         vec = []
+        refvals = []
         for r in ds['rows']:
             if r['id'] not in got: continue
             g = got[r['id']]
             exp = expected(q, r, mode, frozenset(), sqlev)
+            if exp is not NOREF: refvals.append(canon(exp[0]))
             if exp is NOREF:
                 ctx.count('rows.noref'); vec.append('n'); continue
             ctx.count('rows.judged')
@@ -718,14 +744,14 @@ def judge_query(ctx, env, sqlev, ds, q, counts_only=False):
                     need = tuple(rule for rule in ALL_RULES
                                  if not match(g, _or_empty(expected(q, r, mode, frozenset(set(ALL_RULES) - {rule}), sqlev))))
                     explained = need or None
-            w = {'query': src, 'locals': loc, 'mode': mode, 'row': r, 'pony': g, 'admissible': exp, 'q': q}
+            w = {'query': src, 'locals': loc, 'mode': mode, 'row': r, 'pony': g, 'admissible': exp, 'q': q, 'form': form}
             if explained:
                 vec.append('k')
                 rows_out.append({'verdict': 'finding', 'rules': explained, 'w': w})
             else:
                 vec.append('V')
                 rows_out.append({'verdict': 'violation', 'w': w})
-        verdicts[mode] = ('ok', vec, rows_out)
+        verdicts[mode] = ('ok', vec, rows_out, refvals)
     return src, loc, is_filter, verdicts
 
 
@@ -735,7 +761,7 @@ def _or_empty(x):
 
 def slim(w):
     """Witness as JSON text plus a few readable fields (vlib.common.jsonable flattens deep nesting)."""
-    return {'query': w['query'], 'locals': json.dumps(w['locals'], default=repr), 'mode': w['mode'],
+    return {'query': w['query'], 'locals': json.dumps(w['locals'], default=repr), 'mode': w['mode'], 'form': w.get('form'),
             'row_json': json.dumps(w['row']), 'pony_result': json.dumps(w['pony'], default=repr),
             'admissible': json.dumps(w['admissible'], default=repr), 'q_json': json.dumps(w['q'])}
 
@@ -754,7 +780,10 @@ def run_dataset(ctx, env, sqlev, rng, nqueries, sample=False):
         for mode, v in verdicts.items():
             if v[0] != 'ok': continue
             vec = v[1]
-            if any(c != 'n' for c in vec): nontrivial = True
+            # non-trivial: some row has a reference and the reference column is not constant over the rows
+            # (a filter selects a proper non-empty subset; a value query returns at least two different values)
+            if len(set(v[3])) >= 2: nontrivial = True
+            if v[3]: ctx.count('queries.with_reference.' + mode)
             for ro in v[2]:
                 if ro['verdict'] == 'finding':
                     for rule in ro['rules']:
@@ -837,6 +866,7 @@ def pg_array_decode(text):
 
 
 def pg_path_monitor(ctx, rng, n):
+    from pony.utils import is_ident
     fn = load_pg_eval_json_path()
     if fn is None:
         ctx.count('pg_path.function_not_found'); return
@@ -859,7 +889,7 @@ def pg_path_monitor(ctx, rng, n):
             parts = []
             for k in keys:
                 if isinstance(k, int): parts.append(str(k)); continue
-                plain = re.match(r'^[A-Za-z_]\w*$', k, re.ASCII) is not None
+                plain = is_ident(k)
                 if plain and not (nul is False and k.upper() == 'NULL'): parts.append(k)
                 else: parts.append('"%s"' % (k.replace('\\', '\\\\') if bs is False else k).replace('"', '\\"'))
             return '{%s}' % ','.join(parts)
@@ -882,7 +912,7 @@ def run(ctx):
     sqlev = SqlEval()
     try:
         rng = ctx.rng
-        nds = 60 if ctx.tier == 'quick' else 150
+        nds = 100 if ctx.tier == 'quick' else 250
         nq = 70
         for i in range(nds):
             run_dataset(ctx, env, sqlev, rng, nq, sample=(i % 11 == 0))
@@ -893,18 +923,18 @@ def run(ctx):
     ctx.extra['sqlite_version'] = sqlite3.sqlite_version
     if ctx.counters.get('py_mode_used_json1_function') or ctx.counters.get('json1_mode_used_fallback_function'):
         ctx.inconclusive.append('json1_available flag was not honoured by the generated SQL; the two modes are not distinct')
-    q = ctx.tier == 'quick'
-    k = 1 if q else 16 * 2
-    ctx.floor('executed.json1', 1500 * k)
-    ctx.floor('executed.py', 1000 * k)
-    ctx.floor('rows.agree', 12000 * k)
-    ctx.floor('sqlfunc.json1.json_extract', 1000 * k)
-    ctx.floor('sqlfunc.py.py_json_extract', 1000 * k)
-    ctx.floor('sqlfunc.py.py_json_array_length', 50 * k)
-    ctx.floor('sqlfunc.json1.json_array_length', 50 * k)
+    # floors are per process (each shard of the thorough tier evaluates them on its own counters)
+    k = 1 if ctx.tier == 'quick' else 2
+    ctx.floor('executed.json1', 2500 * k)
+    ctx.floor('executed.py', 2500 * k)
+    ctx.floor('rows.agree', 25000 * k)
+    ctx.floor('sqlfunc.json1.json_extract', 1500 * k)
+    ctx.floor('sqlfunc.py.py_json_extract', 1500 * k)
+    ctx.floor('sqlfunc.py.py_json_array_length', 100 * k)
+    ctx.floor('sqlfunc.json1.json_array_length', 100 * k)
     for kind in ('val', 'cmp', 'cmp_json', 'contains', 'len', 'truth', 'in_consts', 'arr_index', 'arr_slice', 'arr_in',
                  'arr_subset', 'arr_len', 'arr_truth', 'arr_eq', 'arr_index_cmp'):
-        ctx.floor('rows.agree.' + kind, 150 * k)
+        ctx.floor('rows.agree.' + kind, 250 * k)
     ctx.floor('pg_path.evaluated', 300)
 
 
